@@ -143,6 +143,10 @@ def run(ctx, rep):
     pairing_rule(f, P, rep)
     dispatch_rule(f, P, rep, handlers)
     unit_rule(f, P, rep)
+    from . import c09
+    c09.classification_rule(f, rep, 'C01.7')
+    from . import c08
+    c08.grant_rule(f, P, rep, 'C01.8')
 
 
 def read_handlers(f):
